@@ -57,6 +57,9 @@ inductive PrefAdm
   | all
   | none
   | only (l : List Str)
+  /-- any other value (a bare string such as `('m')`, a number …): not a value the table format
+      allows; `AtomParser`'s three tests (`list`, `is True`, `is False`) all pass it -/
+  | malformed
 deriving DecidableEq, Repr
 
 /-- the `definition` column: missing, an expression text, or a unit-type class -/
@@ -117,6 +120,7 @@ def admits (T : Tables) (u : UnitRow) (p : Str) : Bool :=
   | .only l => l.contains p
   | .all => T.prefixKeys.contains p
   | .none => false
+  | .malformed => T.prefixKeys.contains p
 
 
 /-! ## decidable table conditions (decided by the kernel over the regenerated table) -/
@@ -166,6 +170,15 @@ def factPositive (T : Tables) : Bool :=
   T.prefixes.all (fun p => decide (0 < p.mag)) &&
   T.units.all (fun u => decide (0 < u.mag) && u.dims.length == 8 && u.dims.all (fun f => f.den != 0)) &&
   T.sys.all (fun u => decide (0 < u.mag) && u.dims.length == 8 && u.dims.all (fun f => f.den != 0))
+
+/-- F8: the `prefixes` column is well formed: every entry is `True`, `False` or a duplicate-free
+    list of keys of the prefix table -/
+def factPrefShape (T : Tables) : Bool :=
+  T.units.all (fun u => match u.pref with
+    | .all => true
+    | .none => true
+    | .only l => l.all (fun p => T.prefixKeys.contains p) && nodupB l
+    | .malformed => false)
 
 /-- ASCII part of `str.isspace` -/
 def isSpace (c : Char) : Bool :=
